@@ -66,7 +66,11 @@ class MessageHandler(Virtual):
         if match is None:
             return False
 
-        message_num = int(match.groups()[0])
+        try:
+            message_num = int(match.groups()[0])
+        except ValueError:
+            # More digits than int() is willing to convert: no such message.
+            return False
         if message_num < 1:
             return False
 
